@@ -511,6 +511,42 @@ def gen_bigint_ties(rng, f, count):
                     out.append((pf(f, ds[:p], ds[p:], len(ds) - p), fam))
     return out[:count]
 
+def gen_near_tie_posexp(rng, f, count):
+    """D x 10^E with a large positive E (>= 135: `large_mul` by 5^135 in `pow`, possibly twice) and D the
+    smallest / largest k-digit integer above / below an exact midpoint M = (2m+1) 2^p of two huge floats:
+    D 5^E is then a carry chain away from (2m+1) 2^(p-E), i.e. the long multiplication and the additions
+    inside it run through all-ones limbs.  Only formats whose range reaches 10^155 (f64)."""
+    out = []
+    F = FMT[f]
+    mb = F["mbits"]
+    emax = 2 ** (F["ebits"] - 1) - 1
+    if emax < 600:
+        return out
+    while len(out) < count:
+        E = rng.choice([135, 136, 140, 150, 200, 269, 270, 271, 280]) if rng.random() < 0.7 else rng.randint(135, 288)
+        maxk = 308 - E
+        if maxk < 20:
+            continue
+        k = rng.randint(max(20, maxk - 60), maxk) if rng.random() < 0.6 else rng.randint(20, maxk)
+        # a float whose midpoint has k + E decimal digits
+        target = 10 ** (k + E - 1) * rng.randint(1, 9)
+        p = target.bit_length() - (mb + 2)
+        if p < 1 or p + mb + 1 > emax:
+            continue
+        m = (1 << mb) | rng.getrandbits(mb)
+        if rng.random() < 0.2:
+            m = rng.choice([(1 << mb), (1 << (mb + 1)) - 1, (1 << mb) + 1])
+        M = (2 * m + 1) << p
+        lo = M // 10 ** E
+        for D, fam in ((lo + 1, "T-posexp-above"), (lo, "T-posexp-below")):
+            ds = str(D)
+            if rng.random() < 0.7:
+                out.append((pf(f, ds, "", E), fam))
+            else:
+                c = rng.randint(1, len(ds))
+                out.append((pf(f, ds[:c], ds[c:], E + len(ds) - c), fam))
+    return out[:count]
+
 def gen_mp_ties(rng, f):
     """exact ties w = (2m+1) * 2^j * 5^-q inside and just outside the tie window"""
     out = []
@@ -644,94 +680,96 @@ def gen_garbage(rng, f, count):
     return out
 
 # ------------------------------------------------------------------ L*: big-integer operands (C12)
-def rand_limb(rng):
+def rand_limb(rng, W=64):
     r = rng.random()
     if r < 0.15:
         return 0
     if r < 0.3:
-        return 2 ** 64 - 1
+        return 2 ** W - 1
     if r < 0.4:
         return 1
     if r < 0.5:
-        return 2 ** 63
+        return 2 ** (W - 1)
     if r < 0.55:
-        return 2 ** 64 - 2
-    return rng.getrandbits(64)
+        return 2 ** W - 2
+    return rng.getrandbits(W)
 
-def rand_big(rng, n, normalized=True):
-    x = [rand_limb(rng) for _ in range(n)]
+def rand_big(rng, n, normalized=True, W=64):
+    x = [rand_limb(rng, W) for _ in range(n)]
     if normalized and x and x[-1] == 0:
-        x[-1] = rng.getrandbits(64) | 1
+        x[-1] = rng.getrandbits(W) | 1
     return x
 
 def ltok(x):
     return ",".join(str(v) for v in x) if x else "-"
 
-def gen_bigint(rng, count):
+def gen_bigint(rng, count, W=64):
+    """W = limb width of the build under test (64: the modelled build; 32: the other one, thorough tier)"""
+    CAP = 4000 // W
     out = []
-    sizes = [0, 1, 2, 3, 5, 10, 30, 58, 59, 60, 61, 62, 63, 64]
+    sizes = [0, 1, 2, 3, 5, 10, 30, CAP - 4, CAP - 3, CAP - 2, CAP - 1, CAP, CAP + 1, CAP + 2]
     for _ in range(count):
         op = rng.choice(["small_add", "small_add_from", "small_mul", "large_add", "large_add_from", "long_mul", "large_mul",
                          "pow", "bpow", "shl", "shl_bits", "shl_limbs", "compare", "hi64", "bit_length", "normalize",
                          "from_u64", "scalar_add", "scalar_mul", "leading_zeros", "is_normalized", "mulassign", "bhi64"])
-        n = rng.choice(sizes) if rng.random() < 0.6 else rng.randint(0, 63)
-        x = rand_big(rng, n, normalized=rng.random() < 0.85)
+        n = rng.choice(sizes) if rng.random() < 0.6 else rng.randint(0, CAP + 1)
+        x = rand_big(rng, n, normalized=rng.random() < 0.85, W=W)
         if op == "small_add":
             if rng.random() < 0.4:
-                x = [2 ** 64 - 1] * n
-            line = "bg small_add %s %d" % (ltok(x), rand_limb(rng))
+                x = [2 ** W - 1] * n
+            line = "bg small_add %s %d" % (ltok(x), rand_limb(rng, W))
         elif op == "small_add_from":
             if rng.random() < 0.4:
                 k = rng.randint(0, n)
-                x = rand_big(rng, k) + [2 ** 64 - 1] * (n - k)
-            line = "bg small_add_from %s %d %d" % (ltok(x), rand_limb(rng), rng.randint(0, n))
+                x = rand_big(rng, k, W=W) + [2 ** W - 1] * (n - k)
+            line = "bg small_add_from %s %d %d" % (ltok(x), rand_limb(rng, W), rng.randint(0, n))
         elif op == "small_mul":
-            line = "bg small_mul %s %d" % (ltok(x), rand_limb(rng))
+            line = "bg small_mul %s %d" % (ltok(x), rand_limb(rng, W))
         elif op in ("large_add", "large_add_from"):
-            m = rng.choice(sizes[:-2]) if rng.random() < 0.5 else rng.randint(0, 62)
-            y = rand_big(rng, m)
+            m = rng.choice(sizes[:-2]) if rng.random() < 0.5 else rng.randint(0, CAP)
+            y = rand_big(rng, m, W=W)
             if rng.random() < 0.3:
-                x = [2 ** 64 - 1] * n
-                y = [2 ** 64 - 1] * m
+                x = [2 ** W - 1] * n
+                y = [2 ** W - 1] * m
             if op == "large_add":
                 line = "bg large_add %s %s" % (ltok(x), ltok(y))
             else:
                 st = rng.randint(0, max(0, n + 1))
                 line = "bg large_add_from %s %s %d" % (ltok(x), ltok(y), st)
         elif op in ("long_mul", "large_mul", "mulassign"):
-            n = rng.randint(1, 62)
-            m = rng.choice([1, 2, 3, 5, 62 - n, 63 - n, 64 - n, rng.randint(1, 40)])
+            n = rng.randint(1, CAP)
+            m = rng.choice([1, 2, 3, 5, CAP - n, CAP + 1 - n, CAP + 2 - n, rng.randint(1, 40 * 64 // W)])
             m = max(1, m)
-            x = rand_big(rng, n)
-            y = rand_big(rng, m)
+            x = rand_big(rng, n, W=W)
+            y = rand_big(rng, m, W=W)
             if rng.random() < 0.2:
-                x = [2 ** 64 - 1] * n
-                y = [2 ** 64 - 1] * m
+                x = [2 ** W - 1] * n
+                y = [2 ** W - 1] * m
             if rng.random() < 0.2 and m > 2:
                 for i in rng.sample(range(m - 1), min(3, m - 1)):
                     y[i] = 0
             line = "bg %s %s %s" % (op, ltok(x), ltok(y))
         elif op == "pow":
-            e = rng.choice(list(range(0, 31)) + [134, 135, 136, 270, 405, 1111, 26, 27, 28, 54])
-            n = rng.choice([1, 1, 1, 2, 5, 20, 40, 50, 61])
-            x = rand_big(rng, n)
+            e = rng.choice(list(range(0, 31)) + [134, 135, 136, 270, 405, 1111, 26, 27, 28, 54, 12, 13, 14, 39])
+            n = rng.choice([1, 1, 1, 2, 5, 20, 40, 50, CAP - 1])
+            x = rand_big(rng, n, W=W)
             line = "bg pow %s %d" % (ltok(x), e)
         elif op == "bpow":
             base = rng.choice([2, 5, 10])
             e = rng.choice(list(range(0, 31)) + [63, 64, 65, 127, 128, 135, 300, 350, 1074, 1100])
             n = rng.choice([1, 1, 2, 5, 20, 40])
-            x = rand_big(rng, n)
+            x = rand_big(rng, n, W=W)
             line = "bg bpow %s %d %d" % (ltok(x), base, e)
         elif op == "shl":
-            s = rng.choice(list(range(1, 64)) + [64, 65, 127, 128, 129, 3967, 3968, 3969, 64 * (62 - n), 64 * (62 - n) + 1, 64 * (63 - n)] )
+            s = rng.choice(list(range(1, 64)) + [64, 65, 127, 128, 129, 3967, 3968, 3969, 3999, 4000, 4001, W * (CAP - n), W * (CAP - n) + 1, W * (CAP + 1 - n)] )
             s = max(0, s)
             line = "bg shl %s %d" % (ltok(x), s)
         elif op == "shl_bits":
             if rng.random() < 0.3 and n > 0:
-                x[-1] = x[-1] | (1 << 63)
-            line = "bg shl_bits %s %d" % (ltok(x), rng.randint(1, 63))
+                x[-1] = x[-1] | (1 << (W - 1))
+            line = "bg shl_bits %s %d" % (ltok(x), rng.randint(1, W - 1))
         elif op == "shl_limbs":
-            s = rng.choice([1, 2, 61 - n, 62 - n, 63 - n, rng.randint(1, 63)])
+            s = rng.choice([1, 2, CAP - 1 - n, CAP - n, CAP + 1 - n, rng.randint(1, CAP + 1)])
             s = max(1, s)
             line = "bg shl_limbs %s %d" % (ltok(x), s)
         elif op == "compare":
@@ -739,7 +777,7 @@ def gen_bigint(rng, count):
             r = rng.random()
             if r < 0.3 and y:
                 i = rng.randrange(len(y))
-                y[i] = (y[i] + rng.choice([1, 2 ** 64 - 1])) % 2 ** 64
+                y[i] = (y[i] + rng.choice([1, 2 ** W - 1])) % 2 ** W
                 if y[-1] == 0:
                     y[-1] = 1
             elif r < 0.5:
@@ -750,25 +788,25 @@ def gen_bigint(rng, count):
             if x and x[-1] == 0:
                 x[-1] = 1
             if x and rng.random() < 0.5:
-                x[-1] = rng.getrandbits(rng.randint(1, 64)) | 1
+                x[-1] = rng.getrandbits(rng.randint(1, W)) | 1
             if len(x) > 2 and rng.random() < 0.5:
                 for i in range(len(x) - 2):
                     x[i] = 0
                 if rng.random() < 0.5:
                     x[rng.randrange(len(x) - 2)] = 1
             if len(x) >= 2 and rng.random() < 0.3:
-                x[-2] = rng.choice([0, 1, 2 ** 63, 2 ** 64 - 1])
+                x[-2] = rng.choice([0, 1, 2 ** (W - 1), 2 ** W - 1])
             line = "bg %s %s" % (op, ltok(x))
         elif op in ("bit_length", "leading_zeros", "is_normalized", "normalize"):
             if op == "normalize" and rng.random() < 0.5:
-                x = x + [0] * rng.randint(0, min(5, 62 - len(x)) if len(x) <= 62 else 0)
+                x = x + [0] * rng.randint(0, min(5, CAP - len(x)) if len(x) <= CAP else 0)
             line = "bg %s %s" % (op, ltok(x))
         elif op == "from_u64":
-            line = "bg from_u64 %d" % rand_limb(rng)
+            line = "bg from_u64 %d" % rand_limb(rng, 64)
         elif op == "scalar_add":
-            line = "bg scalar_add %d %d" % (rand_limb(rng), rand_limb(rng))
+            line = "bg scalar_add %d %d" % (rand_limb(rng, W), rand_limb(rng, W))
         else:
-            line = "bg scalar_mul %d %d %d" % (rand_limb(rng), rand_limb(rng), rand_limb(rng))
+            line = "bg scalar_mul %d %d %d" % (rand_limb(rng, W), rand_limb(rng, W), rand_limb(rng, W))
         out.append((line, "L-" + op))
     return out
 
